@@ -45,6 +45,7 @@ def run_on_pty(child, script, env):
 
 class Prop(PropBase):
     ID = "C14"
+    custom_replays = True
     LEVEL = "proof"
     LEAN_MODULES = ["Tpp.Props.C14"]
     REQUIRED = ["Tpp.Props.C14." + n for n in ("C14_stdout", "C14_channel_parametric", "C14_equals_run")]
@@ -100,7 +101,8 @@ class Prop(PropBase):
     def custom_check(tier, rng, ctx):
         build = ctx["build"]
         child = build.build_harness("stdout_child")
-        scripts = Prop.scripts(tier, rng)
+        replaying = ctx.get("replay")
+        scripts = Prop.scripts(tier, rng) if not replaying else ["T" + l[1:] if l[:1] == "T" else l for l in replaying["lines"]]
 
         def flat(ans):
             return b"".join(unhex(seg.split(" / ")[0].strip()) for seg in ans.split(" ; ")) if ans != "-" else b""
@@ -152,7 +154,7 @@ class Prop(PropBase):
                        id(env_nosync): " (after std::ios::sync_with_stdio(false))", id(env_pty): " (standard output is a raw-mode pseudo terminal)"}.get(id(env_), "")
                 failures.append({"what": "child stdout differs from the capturing channel" + how,
                                  "signature": "C14 stdout-differs",
-                                 "lines": [s_[:4000]], "returncode": p.returncode, "first_difference_at": first,
+                                 "lines": [s_], "returncode": p.returncode, "first_difference_at": first,
                                  "stdout_hex": got[max(0, first - 8):first + 24].hex(), "expected_hex": exp[max(0, first - 8):first + 24].hex(),
                                  "stdout_len": len(got), "expected_len": len(exp), "model_agrees_with_capture": model.get(s_) == exp,
                                  "stderr": p.stderr.decode("utf-8", "replace")[-500:]})
@@ -162,7 +164,7 @@ class Prop(PropBase):
         import time as _t
         rr = __import__("random").Random(rng.random())
         storm = []
-        for n in ((200000, 70000) if tier == "quick" else (200000, 70000, 1000000, 65537, 131072)):
+        for n in (() if replaying else (200000, 70000) if tier == "quick" else (200000, 70000, 1000000, 65537, 131072)):
             data = [rr.randrange(256) for _ in range(n)]
             storm.append("T 0 ; wr 4 104 101 97 100 ; wr %d %s ; wr 4 116 97 105 108" % (n, " ".join(map(str, data))))
         interrupted = 0
